@@ -53,4 +53,81 @@ mod verif_kani {
         assert!(r == expect, "C09.find_bisect_point.is_the_partition_point");
         kani::cover!(r > low && r < high);
     }
+
+    // ------------------------------------------------------------------------------------------------
+    // property C12, float kernel: HashValue for f32 / f64 hashes the -0.0-normalised bit pattern, so values that
+    // compare equal hash equally, and nothing else is merged.  Loop-free over all bit patterns: complete.
+    // The hasher is a recorder: it returns / stores exactly the bytes it is given.
+    // ------------------------------------------------------------------------------------------------
+    use crate::hash_utils::HashValue;
+    use std::hash::{BuildHasher, Hasher};
+    struct Rec { buf: [u8; 8], n: usize }
+    impl Hasher for Rec {
+        fn write(&mut self, bytes: &[u8]) {
+            let mut i = 0;
+            while i < bytes.len() { if self.n < 8 { self.buf[self.n] = bytes[i]; } self.n += 1; i += 1; }
+        }
+        fn finish(&self) -> u64 { u64::from_ne_bytes(self.buf) }
+    }
+    struct RecBuild;
+    impl BuildHasher for RecBuild { type Hasher = Rec; fn build_hasher(&self) -> Rec { Rec { buf: [0; 8], n: 0 } } }
+
+    #[kani::proof]
+    #[kani::unwind(10)]
+    fn c12_hash_f64_agrees_with_equality() {
+        let (a, b): (f64, f64) = (f64::from_bits(kani::any()), f64::from_bits(kani::any()));
+        let (ha, hb) = (a.hash_one(&RecBuild), b.hash_one(&RecBuild));
+        let (mut wa, mut wb) = (RecBuild.build_hasher(), RecBuild.build_hasher());
+        a.hash_write(&mut wa); b.hash_write(&mut wb);
+        if a == b { assert!(ha == hb && wa.buf == wb.buf, "C12.float.equal_values_hash_equally"); }
+        if a.to_bits() == b.to_bits() { assert!(ha == hb, "C12.float.same_bits_hash_equally"); }
+        if !a.is_nan() && !b.is_nan() && a != b { assert!(ha != hb && wa.buf != wb.buf, "C12.float.different_values_are_not_merged"); }
+        // the one-shot and the streaming entry point feed the hasher the same data
+        assert!(wa.n == 8 && u64::from_ne_bytes(wa.buf) == ha, "C12.float.hash_write_feeds_the_same_data_as_hash_one");
+        kani::cover!(a == b && a.to_bits() != b.to_bits());
+        kani::cover!(a.is_nan());
+    }
+
+    #[kani::proof]
+    #[kani::unwind(10)]
+    fn c12_hash_f32_agrees_with_equality() {
+        let (a, b): (f32, f32) = (f32::from_bits(kani::any()), f32::from_bits(kani::any()));
+        let (ha, hb) = (a.hash_one(&RecBuild), b.hash_one(&RecBuild));
+        let (mut wa, mut wb) = (RecBuild.build_hasher(), RecBuild.build_hasher());
+        a.hash_write(&mut wa); b.hash_write(&mut wb);
+        if a == b { assert!(ha == hb && wa.buf == wb.buf, "C12.float.equal_values_hash_equally"); }
+        if a.to_bits() == b.to_bits() { assert!(ha == hb, "C12.float.same_bits_hash_equally"); }
+        if !a.is_nan() && !b.is_nan() && a != b { assert!(ha != hb && wa.buf != wb.buf, "C12.float.different_values_are_not_merged"); }
+        assert!(wa.n == 4 && u64::from_ne_bytes(wa.buf) == ha, "C12.float.hash_write_feeds_the_same_data_as_hash_one");
+        kani::cover!(a == b && a.to_bits() != b.to_bits());
+        kani::cover!(a.is_nan());
+    }
+
+    // ------------------------------------------------------------------------------------------------
+    // property C07, "emitting a prefix of groups": split_vec_min_alloc(v, n) returns the first n values and leaves the
+    // rest, in order (both strategies: drain+collect when n*2 <= len, split_off+replace otherwise).  Bounded: len <= 5.
+    // ------------------------------------------------------------------------------------------------
+    #[kani::proof]
+    #[kani::unwind(8)]
+    fn c07_split_vec_min_alloc_bounded() {
+        let len: usize = kani::any();
+        kani::assume(len <= 5);
+        let src: [u8; 5] = kani::any();
+        let mut v: Vec<u8> = Vec::with_capacity(8);
+        let mut i = 0;
+        while i < len { v.push(src[i]); i += 1; }
+        let n: usize = kani::any();
+        kani::assume(n <= len);
+        let first = split_vec_min_alloc(&mut v, n);
+        assert!(first.len() == n && v.len() == len - n, "C07.split.lengths");
+        let mut k = 0;
+        while k < len {
+            if k < n { assert!(first[k] == src[k], "C07.split.emitted_prefix_is_the_first_n_values_in_order"); }
+            else { assert!(v[k - n] == src[k], "C07.split.remaining_values_keep_their_order"); }
+            k += 1;
+        }
+        kani::cover!(n >= 1 && n * 2 <= len);
+        kani::cover!(n * 2 > len && n < len);
+        kani::cover!(n == len && len >= 2);
+    }
 }
